@@ -28,8 +28,9 @@ def grouped_range(group_idx, array, *, axis=-1, size=None, fill_value=None, dtyp
 
 
 def range_finalize(mx, mn):
+    # a group without any valid member still carries the neutral fills (-inf, +inf): its range is undefined (NaN)
     with np.errstate(invalid="ignore"):
-        return mx - mn
+        return np.where((mx == -np.inf) & (mn == np.inf), np.nan, mx - mn)
 
 
 def msq_finalize(s, c):
